@@ -541,7 +541,7 @@ pub fn build_hand(name: &str, rng: &mut Rng) -> Built {
         }
         "symsync" => {
             let sps = *rng.pick(&[2.5f32, 4.0, 5.2083335, 10.0]);
-            params = vec![sps.to_bits() as u64];
+            params = vec![sps.to_bits() as u64, 0.5f32.to_bits() as u64, 0.5f32.to_bits() as u64, 0.5f32.to_bits() as u64];
             alphabets = vec![wave_alpha()];
             rig1::<f32, f32>(rng, |r| {
                 let filter = rustradio::iir_filter::IirFilter::new(&[0.5f32, 0.5]);
@@ -566,7 +566,7 @@ pub fn build_hand(name: &str, rng: &mut Rng) -> Built {
         }
         "symsync_clk" => {
             let sps = *rng.pick(&[2.5f32, 4.0, 5.2083335, 10.0]);
-            params = vec![sps.to_bits() as u64];
+            params = vec![sps.to_bits() as u64, 0.5f32.to_bits() as u64, 0.5f32.to_bits() as u64, 0.5f32.to_bits() as u64];
             alphabets = vec![wave_alpha()];
             rig12::<f32, f32>(rng, |r| {
                 let filter = rustradio::iir_filter::IirFilter::new(&[0.5f32, 0.5]);
@@ -1038,8 +1038,86 @@ pub fn eof_probes(rng: &mut Rng) -> Vec<String> {
 /// against the greedy run. Chunking must not matter and nothing may panic or be written past a window.
 pub const TIGHT_NAMES: &[&str] = &[
     "symsync", "symsync_clk", "zerocross", "zerocross_clk", "fir", "fir_c", "resampler", "quaddemod", "fastfm", "iir1",
-    "hilbert", "skip", "delay", "rtlsdr", "cma",
+    "hilbert", "skip", "delay", "rtlsdr", "cma", "fftfilter", "fftfilter_f",
 ];
+
+/// a tag every 1..60 samples (sometimes two on one sample): wherever a call is cut short, tags are near
+fn gen_tags_dense(rng: &mut Rng, len: usize) -> Vec<(usize, u64, u64)> {
+    let mut v = vec![];
+    let stride = *rng.pick(&[3usize, 9, 25, 60]);
+    let mut pos = rng.below(stride);
+    while pos < len {
+        v.push((pos, rng.below(4) as u64, rng.below(1000) as u64));
+        if rng.chance(1, 6) {
+            v.push((pos, rng.below(4) as u64, rng.below(1000) as u64));
+        }
+        pos += 1 + rng.below(stride);
+    }
+    v
+}
+
+/// C20: the real (f32) ZeroCrossing on ideal NRZ waveforms — the statement of `c20_zero_crossing_ideal`
+/// (proved for exact arithmetic) checked on the implementation's float arithmetic: symbol `s` occupies
+/// the sample instants [s*sps, (s+1)*sps); exactly one output per symbol, carrying its sign.
+pub fn zc_ideal_check(rng: &mut Rng) -> String {
+    let sps = *rng.pick(&[4.0f32, 4.5, 5.2083335, 6.25, 8.0, 10.416667, 20.0, 50.0]);
+    let m = match rng.below(4) {
+        0 => rng.range(1, 40),
+        1 => rng.range(40, 600),
+        _ => rng.range(600, 5000),
+    };
+    // the drip harness flushes a bounded number of times: keep the waveform below ~60000 samples
+    let m = m.min((60000.0 / sps) as usize);
+    // runs of equal symbols: short ones as after a scrambler, sometimes very long ones
+    let mut syms: Vec<bool> = Vec::with_capacity(m);
+    let mut cur = rng.chance(1, 2);
+    while syms.len() < m {
+        let run = match rng.below(10) {
+            0 => rng.range(10, 200),
+            1 => rng.range(3, 10),
+            _ => rng.range(1, 4),
+        };
+        for _ in 0..run {
+            if syms.len() < m {
+                syms.push(cur);
+            }
+        }
+        cur = !cur;
+    }
+    let spsd = sps as f64;
+    let n = (m as f64 * spsd).ceil() as usize;
+    let amp = *rng.pick(&[1.0f32, 0.25, 3.0]);
+    let data: Vec<u64> = (0..n)
+        .map(|i| {
+            let s = ((i as f64) / spsd).floor() as usize;
+            let v = if syms[s.min(m - 1)] { amp } else { -amp };
+            v.to_bits() as u64
+        })
+        .collect();
+    let rig = rig1::<f32, f32>(rng, |r| bx!(ZeroCrossing::new(r, sps, 0.1)));
+    let ins = vec![InSpec { pkts: vec![], len: n, seed: 0, m: 0, tbl: vec![], tags: vec![], fixed: Some(data) }];
+    let out_cap = rig.outs[0].cap();
+    let acts = if rng.chance(1, 2) { greedy_schedule(1, 1, &[n]) } else { gen_schedule(rng, 1, 1, &[n], out_cap, 60) };
+    let run = run_case_full(rig, &ins, &acts, true);
+    let id = format!("!zcideal sps={sps} symbols={m} samples={n} amp={amp} first={}", syms[0]);
+    if run.panicked {
+        return format!("{id}\tFAIL panic\tzc-ideal");
+    }
+    if run.exhausted {
+        return format!("{id}\tFAIL the run did not settle\tzc-ideal");
+    }
+    let got: Vec<bool> = run.collected[0].iter().map(|b| f32::from_bits(*b as u32) > 0.0).collect();
+    if got == syms {
+        format!("{id}\tpass")
+    } else {
+        let first = got.iter().zip(&syms).position(|(a, b)| a != b);
+        format!(
+            "{id}\tFAIL {} symbols out for {} in, first difference at {first:?}\tzc-ideal",
+            got.len(),
+            syms.len()
+        )
+    }
+}
 
 pub fn tight_selfcheck(name: &str, rng: &mut Rng) -> Vec<String> {
     let mut rng_b = rng.clone();
@@ -1051,7 +1129,7 @@ pub fn tight_selfcheck(name: &str, rng: &mut Rng) -> Vec<String> {
     let (m, tbl) = built_a.alphabets[0].clone();
     // enough input to fill the output several times even at 10 samples per symbol
     let len = in_cap * rng.range(3, 7) + out_cap * rng.range(2, 12);
-    let ins = vec![InSpec { pkts: vec![], len, seed: rng.next() >> 8, m, tbl, tags: gen_tags(rng, len, false), fixed: None }];
+    let ins = vec![InSpec { pkts: vec![], len, seed: rng.next() >> 8, m, tbl, tags: gen_tags_dense(rng, len), fixed: None }];
     let mut acts = Vec::new();
     for _ in 0..(2 + len / in_cap.max(1)) {
         acts.push(Act::Feed(0, 1_000_000));
@@ -1094,6 +1172,23 @@ pub fn tight_selfcheck(name: &str, rng: &mut Rng) -> Vec<String> {
         }
     }
     out.push(format!("!chunk {id}\t{verdict}\t{}", if verdict == "pass" { String::new() } else { format!("{name}-tight") }));
+    // C12: with the output kept full the very same tags must arrive, on the same output samples
+    let mut tverdict = "pass".to_string();
+    if !a.panicked && !b.panicked {
+        for j in 0..nout {
+            let mut ta = a.ctags[j].clone();
+            let mut tb = b.ctags[j].clone();
+            ta.sort();
+            tb.sort();
+            if ta != tb {
+                let only_a: Vec<_> = ta.iter().filter(|t| !tb.contains(t)).take(3).collect();
+                let only_b: Vec<_> = tb.iter().filter(|t| !ta.contains(t)).take(3).collect();
+                tverdict = format!("FAIL output {j}: tags differ: only with the output kept full {only_a:?}, only greedy {only_b:?}");
+                break;
+            }
+        }
+    }
+    out.push(format!("!tags {id}\t{tverdict}\t{}", if tverdict == "pass" { String::new() } else { format!("{name}-tight-tags") }));
     let c9 = match c09_accept(&a, 4) {
         Ok(()) => "pass".to_string(),
         Err(e) => format!("FAIL {e}"),
@@ -1144,7 +1239,7 @@ pub fn run(args: &[String]) -> Vec<String> {
     let only_block = arg(args, "--block");
     let mut out = Vec::new();
     let names: Vec<&str> = match set.as_str() {
-        "modelled" => SYNC_NAMES.iter().chain(ARITY_NAMES.iter()).chain(["skip", "delay", "resampler", "rtlsdr", "s2pdu", "totext", "audec"].iter()).copied().collect(),
+        "modelled" => SYNC_NAMES.iter().chain(ARITY_NAMES.iter()).chain(["skip", "delay", "resampler", "rtlsdr", "s2pdu", "totext", "audec", "zerocross", "zerocross_clk", "symsync", "symsync_clk"].iter()).copied().collect(),
         "sync" => SYNC_NAMES.to_vec(),
         "arity" => ARITY_NAMES.to_vec(),
         "hand" => HAND_NAMES.to_vec(),
@@ -1169,6 +1264,10 @@ pub fn run(args: &[String]) -> Vec<String> {
         out.extend(ctor_probes());
         let mut r = rng.fork();
         out.extend(eof_probes(&mut r));
+    }
+    for _ in 0..arg_usize(args, "--zc-ideal", 0) {
+        let mut r = rng.fork();
+        out.push(zc_ideal_check(&mut r));
     }
     for i in 0..arg_usize(args, "--tight-probes", 0) {
         let mut r = rng.fork();
